@@ -1,8 +1,9 @@
 """C20 — weight utilities: ESS bounds, trimming contract, volume metric (DESIGN §2/C20)."""
+import ast
 import z3
 
 from pyvc.interp import LoopSpec
-from pyvc.values import Ref, Arr, Opaque, Unsupported, to_z3, fresh_scalar, fresh_arr
+from pyvc.values import Ref, Arr, Opaque, Unsupported, to_z3, fresh_scalar, fresh_arr, fresh_name
 from pyvc import npmodel
 from pyvc.theories import sums, real
 from .common import *  # noqa
@@ -18,6 +19,38 @@ def nonneg(w, n):
 
 def sq_arr(w):
     return Arr(w.shape, lambda i: w.at(i) * w.at(i), "real")
+
+
+def sum_hints(st, w, n, S, Q, w2, bounds=False):
+    """Totals of the 1-d arrays the routine summed, for those pointwise equal to w, w^2, w/S or (w/S)^2 (L-SUM-cong + L-SUM-lin)."""
+    from pyvc import discharge
+    R = z3.RealVal
+    hints = []
+    nn = z3.ToReal(n)
+    for (a, P) in st.ghost.get("sumarrs", []):
+        if a.ndim != 1:
+            continue
+        tot = sums.prefix_fn(st, a)(to_z3(a.shape[0], "int") - 1)
+        lib = (("w", w, lambda t: [t == S]),
+               ("w^2", w2, lambda t: [t == Q]),
+               ("w/S", Arr(w.shape, lambda j: w.at(j) / S, "real"), lambda t: [t == 1]),
+               ("(w/S)^2", Arr(w.shape, lambda j: (w.at(j) / S) * (w.at(j) / S), "real"),
+                lambda t: [t * (S * S) == Q] + ([t <= 1, t >= R("1e-4"), t * nn >= 1] if bounds else [])))     # lemma/normalised-squares-total
+        for nm, b, facts_of in lib:
+            j = z3.Int(fresh_name("j"))
+            same = z3.Implies(z3.And(j >= 0, j < n), to_z3(a.at(j), "real") == to_z3(b.at(j), "real"))
+            # pointwise equality as pure arithmetic over the terms w(j), S (no path condition needed: equal without it => equal with it)
+            sv = z3.Solver()
+            sv.set("timeout", 1000)
+            sv.add(z3.Not(to_z3(a.at(j), "real") == to_z3(b.at(j), "real")))
+            stt = "unknown"
+            if sv.check() == z3.unsat:
+                stt = "discharged" if z3.is_true(z3.simplify(to_z3(a.shape[0], "int") == n)) else \
+                    discharge.check_formulas(list(st.pc) + [to_z3(a.shape[0], "int") != n], 2000)[0]
+            if stt == "discharged":
+                hints += facts_of(tot)
+                break
+    return hints
 
 
 # --------------------------------------------------------------------------- ESS value
@@ -41,15 +74,100 @@ def ess_value(ctx, module, qualname, name, self_obj=False):
 
     def post(I, o, pre):
         st = o.state
-        S, Q, w2 = info["S"], info["Q"], info["w2"]
-        sq_code = st.ghost["sumarrs"][-1][0]     # the array the routine squared and summed
-        # spec array b_i = w_i^2 / S^2 ; sum b = Q / S^2 (L-SUM-lin)
-        b = Arr(w2.shape, lambda i: w2.at(i) / (S * S), "real", prov=("div", S * S, w2))
-        prem, concl = sums.cong_rule(st, sq_code, b, "sq")
-        return [("squares-are-w2-over-S2", prem, concl),
-                ("value-is-spec", to_z3(o.value, "real") == S * S / Q)]
+        S, Q, w2, w, n = info["S"], info["Q"], info["w2"], info["w"], info["n"]
+        # what the routine summed, matched against the arrays an ESS computation may sum (L-SUM-cong: premise checked for a fresh
+        # index, conclusion = the total of the matched spec array).  The postcondition itself is only the value.
+        hints = sum_hints(st, w, n, S, Q, w2)
+        return [("value-is-spec", z3.Implies(z3.And(*hints), to_z3(o.value, "real") == S * S / Q))]
 
     ctx.verify(name, module, qualname, setup, post, registry={}, replayer="c20_ess")
+
+
+# --------------------------------------------------------------------------- ESS: binary64 range (no overflow, no vanishing denominator)
+W_MAX, S_MIN, N_MAX = "1e300", "1e-300", 10000
+F_BIG, F_TINY = "1e307", "1e-307"          # inside the binary64 normal range (1.8e308 / 2.2e-308) with a decade of slack for rounding
+
+
+def ess_range(ctx, module, qualname, self_obj=False):
+    """On the stated domain (1 <= N <= 1e4, 0 <= w_i <= 1e300, sum w >= 1e-300: any representable absolute scale) every intermediate
+    value the routine computes stays within the binary64 normal range and every divisor stays away from zero — evaluated over the
+    reals with a decade of slack, so that rounding (relative 1e-16 per operation) cannot change the verdict.  This is what makes the
+    real-arithmetic value contract above meaningful in binary64: `(sum w)^2 / sum w^2` computed directly satisfies the same real
+    contract but overflows for sum w > 1.3e154 and divides by zero for sum w^2 < 1e-308."""
+    info = {}
+    rec = []
+    R = z3.RealVal
+
+    def setup(I, st):
+        n = fresh_scalar("int", "n")
+        w = fresh_arr((n,), "real", "w")
+        i = z3.Int("i!rg")
+        st.assume(z3.And(n >= 1, n <= N_MAX))
+        st.assume(z3.ForAll([i], z3.Implies(z3.And(i >= 0, i < n), z3.And(w.at(i) >= 0, w.at(i) <= R(W_MAX))), patterns=[w.at(i)]))
+        S = sums.total(st, w)
+        st.assume(S >= R(S_MIN))
+        info.update(n=n, w=w, S=S)
+        I.value_hook = lambda st_, node, v, role: rec.append((role, v, node, st_))
+        call = dict(args=[st.new_arr(w)])
+        if self_obj:
+            call["self_val"] = st.new_obj("HierarchicalGaussianMixture", __module__=CL)
+        return call
+
+    def post(I, o, pre):
+        I.value_hook = None
+        st = o.state
+        n, w, S = info["n"], info["w"], info["S"]
+        g = []
+        # ---- proved facts about finite sums offered to the solver (each a rule with a checked premise, or a Lean lemma instance)
+        i = z3.Int("i!f")
+        w2 = sq_arr(w)
+        Q = sums.total(st, w2)
+        hints = [S <= z3.ToReal(n) * R(W_MAX),                                   # Sums.lean sum_le_card_mul (w_i <= W_MAX)
+                 z3.ForAll([i], z3.Implies(z3.And(i >= 0, i < n), w.at(i) <= S), patterns=[w.at(i)]),      # Sums.lean elem_le_sum (w >= 0)
+                 S * S <= z3.ToReal(n) * Q, Q <= S * S, Q >= 0]                  # Ess.lean ess_upper / ess_lower
+        hints += sum_hints(st, w, n, S, Q, w2, bounds=True)
+        info["hints"] = hints
+        seen = set()
+        for (role, v, node, st_) in rec:
+            key = (role, getattr(node, "lineno", 0), getattr(node, "col_offset", 0), getattr(node, "end_col_offset", 0))
+            if key in seen:
+                continue
+            seen.add(key)
+            src = ast.unparse(node)[:60]
+            terms = []
+            if isinstance(v, Ref) and v.kind == "arr":
+                a = st.arr(v) if v.oid in st.heap else None
+                if a is None or a.sort != "real" or a.ndim != 1:
+                    continue
+                q = z3.Int(fresh_name("q"))
+                terms.append((z3.And(q >= 0, q < to_z3(a.shape[0], "int")), to_z3(a.at(q), "real")))
+            elif z3.is_expr(v) and z3.is_real(v):
+                terms.append((z3.BoolVal(True), v))
+            elif isinstance(v, float):
+                terms.append((z3.BoolVal(True), R(repr(v))))
+            for (dom, t) in terms:
+                if role == "denominator":
+                    g.append((f"line-{node.lineno}:divisor `{src}` stays away from zero", hints + [dom], z3.Or(t >= R(F_TINY), t <= -R(F_TINY))))
+                else:
+                    g.append((f"line-{node.lineno}:`{src}` stays within the binary64 range", hints + [dom], z3.And(t <= R(F_BIG), t >= -R(F_BIG))))
+        return [(nm, z3.Implies(z3.And(*hyp), goal)) for (nm, hyp, goal) in g] or [("some-intermediate-recorded", z3.BoolVal(False))]
+
+    def witness(model, label):
+        from pyvc.replay import zval
+        try:
+            n = zval(model, info["n"])
+            if isinstance(n, int) and 1 <= n <= 64:
+                return {"replayer": "c20_ess", "input": {"w": [float(zval(model, info["w"].at(k))) for k in range(n)]}}
+        except Exception:
+            pass
+        return {"replayer": "c20_ess", "input": {}}
+
+    ctx.verify("binary64-range", module, qualname, setup, post, registry={}, witness=witness, replayer="c20_ess")
+
+
+def recip_lemma(D, T, Q, N):
+    """D T = Q, T > 0, Q > 0, N >= 1  =>  1/D/N = T/Q/N"""
+    return z3.Implies(z3.And(T > 0, Q > 0, N >= 1, D * T == Q), 1 / D / N == T / Q / N)
 
 
 def compute_ess(ctx):
@@ -74,9 +192,11 @@ def compute_ess(ctx):
         b = Arr((n,), lambda i: e2.at(i) / (S * S), "real", prov=("div", S * S, e2))
         p1, c1 = sums.cong_rule(st, E_code, e, "e")
         p2, c2 = sums.cong_rule(st, sq_code, b, "sq")
+        D_code = sums.prefix_fn(st, sq_code)(to_z3(sq_code.shape[0], "int") - 1)
         return [("weights-are-exp-of-shifted-logw", p1, c1),
                 ("squares-are-e2-over-S2", z3.Implies(S > 0, p2), z3.Implies(S > 0, c2)),
-                ("value-is-spec-over-n", z3.Implies(z3.And(S > 0, Q > 0),
+                # instance of lemma/reciprocal-of-normalised-squares (proved below for all reals) at D = the total the code divides by
+                ("value-is-spec-over-n", z3.Implies(z3.And(S > 0, Q > 0, recip_lemma(D_code, S * S, Q, z3.ToReal(n))),
                                                     to_z3(o.value, "real") == S * S / Q / z3.ToReal(n)))]
 
     ctx.verify("", TOOLS, "compute_ess", setup, post, registry={}, replayer="c20_ess")
@@ -84,6 +204,11 @@ def compute_ess(ctx):
 
 def ess_lemmas(ctx):
     S, Q, c, N, a = z3.Reals("S Q c N a")
+    T_, D_ = z3.Reals("T D")
+    ctx.lemma("lemma/reciprocal-of-normalised-squares", [], recip_lemma(D_, T_, Q, N), detail="1/(Q/T)/N = T/Q/N")
+    ctx.lemma("lemma/normalised-squares-total", [T_ > 0, Q >= 0, Q <= T_, T_ <= N * Q, N >= 1, N <= 10000, D_ * T_ == Q],
+              z3.And(D_ <= 1, D_ * N >= 1, D_ * 10000 >= 1),
+              detail="D = sum (w_i/S)^2 = Q/S^2 with Q <= S^2 <= N Q (Ess.lean) lies in [1/N, 1]: the divisor of the normalise-then-square form")
     ess = lambda s, q: s * s / q
     ctx.lemma("lemma/ess-scale-invariant", [Q > 0, c > 0], ess(c * S, c * c * Q) == ess(S, Q),
               detail="ess(c*w) = ess(w): sum(c w) = c S, sum((c w)^2) = c^2 Q (L-SUM-lin)")
@@ -181,12 +306,16 @@ def trim(ctx):
 
 
 def run(ctx):
+    from . import lean as _lean
+    _lean.require(ctx, "Sums.lean", ['prefix_unique', 'sum_prefix_nonneg', 'sum_prefix_mono', 'sum_scale', 'sum_div_const', 'sum_const_rule', 'max_attained'])
     ess_value(ctx, TOOLS, "effective_sample_size", "")
     ess_value(ctx, CL, "HierarchicalGaussianMixture._compute_effective_sample_size", "", self_obj=True)
     compute_ess(ctx)
+    ess_range(ctx, TOOLS, "effective_sample_size")
+    ess_range(ctx, CL, "HierarchicalGaussianMixture._compute_effective_sample_size", self_obj=True)
     ess_lemmas(ctx)
     trim(ctx)
     from . import c20_vol
     c20_vol.run(ctx)
-    ctx.trust("L-SUM lemmas (prefix sums)", "L-MASK axioms (boolean indexing)",
+    ctx.trust("L-SUM rules: each statement is machine-checked in Lean/Mathlib over Finset sums (lemmas/Sums.lean; prefix_unique identifies the prefix function with the finite sum); what stays trusted is the transcription of those statements into the z3 axioms/rules of pyvc/theories/sums.py", "L-MASK axioms (boolean indexing)",
               "np.percentile(w, 0) = min w and percentile >= min", "np.linspace formula", "np.max attains and bounds")
